@@ -58,6 +58,8 @@ static unsigned char gf8_inv(unsigned char a)
 { unsigned char r = 1, s = a; for (int i = 0; i < 7; i++) { s = gf8_mul(s, s); r = gf8_mul(r, s); } return r; }   /* a^254 */
 /* ---------------- the five primitives (assumed contracts, reference form) ---------------- */
 int g_bs; int in_fail_invert; int n_invert_failed;
+unsigned cur_mask; int cur_dest, cur_unit; int g_write_any;   /* g_write_any: encode (parity buffers are the outputs) */
+static unsigned char *cellp[K + M];
 unsigned char gf_mul(unsigned char a, unsigned char b) { return gf8_mul(a, b); }
 void gf_gen_rs_matrix(unsigned char *a, int n, int k)
 {
@@ -110,6 +112,8 @@ void ec_encode_data(int len, int k, int rows, unsigned char *tbls, unsigned char
   __CPROVER_assert(__CPROVER_r_ok(tbls, (size_t)32 * k * rows), "ec_encode_data.requires: tables for k*rows coefficients");
   for (int r = 0; r < rows; r++) {
     __CPROVER_assert(__CPROVER_w_ok(coding[r], 1), "ec_encode_data.requires: every destination is a whole stripe buffer");
+    for (int i = 0; i < N; i++) if (cellp[i] == coding[r])
+      __CPROVER_assert(g_write_any || ((cur_mask >> i) & 1u), "C15: the adapter writes only into buffers of missing fragments (never into a supplied fragment)");
     unsigned char acc = 0;
     for (int j = 0; j < k; j++) {
       __CPROVER_assert(__CPROVER_r_ok(data[j], 1), "ec_encode_data.requires: every source is a whole stripe buffer");
@@ -134,9 +138,7 @@ void *dlsym(void *h, const char *name)
   __CPROVER_assert(0, "dlsym.requires: a symbol libisal exports");
   return NULL;
 }
-static unsigned char *cellp[N];
 #define cell(i) (*cellp[i])
-unsigned cur_mask; int cur_dest, cur_unit;
 static int popc(unsigned x) { int c = 0; for (int i = 0; i < 32; i++) c += (x >> i) & 1u; return c; }
 void harness(void)
 {
@@ -216,6 +218,7 @@ void harness(void)
     for (int j = 0; j < K; j++) s[j] = (j == u) ? 0xA7 : 0;
     for (int r = K; r < N; r++) { s[r] = 0; for (int j = 0; j < K; j++) s[r] ^= gf8_mul(G[r * K + j], s[j]); }
     for (int i = 0; i < N; i++) cell(i) = i < K ? s[i] : 0;
+    g_write_any = 0; cur_mask = ((1u << N) - 1) & ~((1u << K) - 1);      /* encode may write the parity buffers only */
     __CPROVER_assert(OPS.encode(desc, data, parity, g_bs) == 0, "isa_l_encode.ensures: success");
     for (int i = 0; i < N; i++) __CPROVER_assert(cell(i) == s[i], "C19/C01: encode writes parity = generator x data and leaves the data alone");
   }
